@@ -601,6 +601,9 @@ func evaluate(in input, report reporter) {
 	parserHangs := false
 	var entryResp *sb.Response
 	var entryFail *pk.Failure
+	if !in.skipEntry && gatedCase(entry) {
+		in.skipEntry = true
+	}
 	if !in.skipEntry {
 		entryResp, entryFail = analyzeWith(px.Pool(), entry)
 		parserHangs = entryFail != nil && entryFail.Sig == "hang:parse"
@@ -621,10 +624,10 @@ func evaluate(in input, report reporter) {
 		return
 	}
 	for _, v := range in.variants {
-		if gatedVariant(v, in) {
+		c := Case{Kind: in.kind, Text: in.text, Module: in.module, NoMain: in.noMain, Variant: v}
+		if gatedCase(c) {
 			continue
 		}
-		c := Case{Kind: in.kind, Text: in.text, Module: in.module, NoMain: in.noMain, Variant: v}
 		resp, f := analyzeWith(px.Pool(), c)
 		accountAnalyze(c, resp, f, tokensOK, in.depthHint)
 		report(c, f)
@@ -632,18 +635,59 @@ func evaluate(in input, report reporter) {
 }
 
 // Gate "module-cycle": while a finding about import cycles between imported modules is open, every
-// case of the variants that build such a cycle dies the same (slow: the stack grows to 1 GB) death;
-// only one in 64 of them is then executed, the rest is counted as gated.
-func gatedVariant(v string, in input) bool {
-	if v != "mod-self" && v != "cycle" && !strings.Contains(in.kind, "chain-cycle") {
+// case whose imported modules import each other (or themselves) dies the same slow death (the
+// stack grows to 1 GB); only one in 64 of them is then executed, the rest is counted as gated.
+var fromRe = regexp.MustCompile(`from\s+([A-Za-z_][A-Za-z_0-9]*)`)
+
+func importedModulesCycle(mods map[string]string) bool {
+	edges := map[string][]string{}
+	for name, text := range mods {
+		if name == "main" {
+			continue
+		}
+		for _, m := range fromRe.FindAllStringSubmatch(text, -1) {
+			if _, ok := mods[m[1]]; ok && m[1] != "main" {
+				edges[name] = append(edges[name], m[1])
+			}
+		}
+	}
+	state := map[string]int{}
+	var visit func(n string) bool
+	visit = func(n string) bool {
+		switch state[n] {
+		case 1:
+			return true
+		case 2:
+			return false
+		}
+		state[n] = 1
+		for _, m := range edges[n] {
+			if visit(m) {
+				return true
+			}
+		}
+		state[n] = 2
 		return false
 	}
+	for n := range edges {
+		if visit(n) {
+			return true
+		}
+	}
+	return false
+}
+
+func gatedCase(c Case) bool {
 	if !pk.GateOpen("module-cycle") {
 		return false
 	}
+	b, ok := build(c)
+	if !ok || len(b.mods) < 2 || !importedModulesCycle(b.mods) {
+		return false
+	}
 	h := uint32(2166136261)
-	for i := 0; i < len(in.text); i++ {
-		h = (h ^ uint32(in.text[i])) * 16777619
+	for i := 0; i < len(c.Text); i++ {
+		h = (h ^ uint32(c.Text[i])) * 16777619
 	}
 	if h%64 == 0 {
 		return false
